@@ -1,5 +1,6 @@
 import JV.Drv.Common
 import JV.Model.Pointer
+import JV.Model.Unflatten
 import JV.Spec.Rfc6901
 namespace JV
 namespace Drv
@@ -26,7 +27,8 @@ def showMut (r : Option PErr × JVal) : String :=
   (match r.1 with | none => "ok " | some _ => "err ") ++ Wire.render r.2
 
 /-- ptr parse x<hex> | ptr tostr t<hex>… | ptr get <j|o> x<loc> <doc> | ptr contains …
-    ptr add|addia|replace <j|o> <0|1> x<loc> <doc> <val> | ptr remove <j|o> <0|1> x<loc> <doc> | ptr flatten <j|o> <doc> -/
+    ptr add|addia|replace <j|o> <0|1> x<loc> <doc> <val> | ptr remove <j|o> <0|1> x<loc> <doc> | ptr flatten <j|o> <doc>
+    ptr unflat|flatrt <j|o> <0|1> <doc>   (1 = unflatten_options::assume_object; flatrt = unflatten(flatten(doc))) -/
 def pointerLine : List String → String
   | ["parse", x] =>
     match hexArg x with
@@ -84,6 +86,20 @@ def pointerLine : List String → String
   | "flatten" :: kind :: rest =>
     match read1 rest with
     | some d => "ok " ++ Wire.render (flatten (kind = "o") d)
+    | none => "bad-op"
+  | "unflat" :: kind :: c :: rest =>
+    match read1 rest with
+    | some d =>
+      (match unflatten (kind = "o") (c = "1") d with
+      | .ok v => "ok " ++ Wire.render v
+      | .error _ => "err")
+    | none => "bad-op"
+  | "flatrt" :: kind :: c :: rest =>
+    match read1 rest with
+    | some d =>
+      (match unflatten (kind = "o") (c = "1") (flatten (kind = "o") d) with
+      | .ok v => "ok " ++ Wire.render v
+      | .error _ => "err")
     | none => "bad-op"
   | op :: kind :: c :: x :: rest =>
     match hexArg x, read2 rest with
